@@ -147,8 +147,16 @@ class Program:
                     names += ["eigh"]
                     if x.blocks and all(np.asarray(b_).shape[0] == np.asarray(b_).shape[1] for b_ in x.blocks.values()):
                         names += ["solve"]
-        if nd == 0:
-            names += ["item"]
+        if len(x.blocks) == 1 and all(ix.size_total == 1 for ix in x.indices):
+            # one stored element (rank 0, or every axis of size one)
+            names += ["item", "item_complex", "item_bool"] if nd == 0 else ["item", "item_complex"]
+            names += ["sub_scaled_self", "tensordot_rank0_second"]
+            el = np.asarray(next(iter(x.blocks.values()))).reshape(-1)[0]
+            if np.isfinite(el) and 1e-100 < abs(el) < 1e100:
+                names += ["div_scaled_self", "div_scaled_self"]
+        names += ["tensordot_scalar"]
+        if nd >= 1:
+            names += ["align_axes_inplace"]
         if ferm:
             names += ["phase_flip", "phase_transpose", "phase_global", "phase_sync", "phase_sync_inplace", "phase_flip_inplace", "phase_sector", "conj_opts", "dagger_pd"]
         name = rng.choice(names)
@@ -198,6 +206,10 @@ class Program:
             return name, [x], f, I(inplace=True)
         if name == "item":
             return name, [x], (lambda a: a.item()), I(dtype="scalar")
+        if name == "item_complex":
+            return name, [x], (lambda a: complex(a)), I(dtype=None)
+        if name == "item_bool":
+            return name, [x], (lambda a: bool(a)), I(dtype=None)
         if name in ("transpose", "transpose_inplace"):
             perm = tuple(rng.sample(range(nd), nd))
             if name == "transpose":
@@ -272,6 +284,34 @@ class Program:
             c = rng.choice(gen.POOL[sym])
             dl = rng.random() < 0.5
             return name, [x], (lambda a: a.expand_dims(ax, c=c, dual=dl)), I(expand_charge=c)
+        if name == "div_scaled_self":
+            # array / array is defined when every axis has size one
+            sc = rng.choice([2.0, -0.5, 4.0])
+            return name, [x], (lambda a: a / (a * sc)), I()
+        if name == "sub_scaled_self":
+            sc = rng.choice([2.0, -0.5, 4.0])
+            return name, [x], (lambda a: a - (a * sc)), I()
+        if name == "tensordot_scalar":
+            sc = rng.choice([2.0, -0.5, 3])
+            return name, [x], (lambda a: sr.tensordot(a, sc, axes=0)), I()
+        if name == "tensordot_rank0_second":
+            # a rank-0 ARRAY as second operand of an outer product
+            y = self.fresh(ndim=rng.randint(1, 2))
+            z0 = x if nd == 0 else None
+            if z0 is None:
+                return "tensordot_scalar", [x], (lambda a: sr.tensordot(a, 2.0, axes=0)), I()
+            return name, [y, z0], (lambda a, b: sr.tensordot(a, b, axes=rng.choice([0, ((), ())]), preserve_array=True)), I()
+        if name == "align_axes_inplace":
+            ax = rng.sample(range(nd), rng.randint(1, nd))
+
+            def f(a):
+                from symmray.abelian_core import drop_misaligned_sectors
+
+                b = a.conj()
+                drop_misaligned_sectors(a, b, tuple(ax), tuple(ax), inplace=True)
+                return a
+
+            return name, [x], f, I(inplace=True)
         if name == "align_axes":
             ax = rng.sample(range(nd), rng.randint(1, nd))
             return name, [x], (lambda a: a.align_axes(a.conj(), (tuple(ax), tuple(ax)))), I()
